@@ -6,7 +6,7 @@ from be_check import run_be, replay_be
 
 PID = 'C16'
 MANIFEST = dict(
-    text='Machine-checked (Coq) on the backend micro-step model: a log call enqueues iff the level is at or above the logger\'s level at that step and otherwise changes nothing at all (no timestamp, no registration: the arguments are never touched); the sink loop writes one line per sink that is in the written set, and with no throwing sink a sink is in it iff the statement passes that sink\'s own level filter and own user filters - independent of the other sinks; a reused transit-event slot reports exactly the level given for every previous slot content (log_level() is decided by the call site\'s metadata, so the defensive reset of the stale field is irrelevant - DESIGN\'s original assumption was corrected). Model run against the real backend with level and filter changes interleaved with logging from several threads; monitor on the implementation: exhaustive level x logger level x sink level cross product (11x10x10) plus random multi-sink/filter cases. Not covered by a theorem here: the per-sink override pattern (formatting is C12\'s subject) and the static-level macros (the driver uses the dynamic-level entry point with every level).',
+    text='Machine-checked (Coq) on the backend micro-step model: a log call enqueues iff the level is at or above the logger\'s level at that step and otherwise changes nothing at all (no timestamp, no registration: the arguments are never touched); the sink loop writes one line per sink that is in the written set, and with no throwing sink a sink is in it iff the statement passes that sink\'s own level filter and own user filters - independent of the other sinks; a reused transit-event slot reports exactly the level given for every previous slot content (log_level() is decided by the call site\'s metadata, so the defensive reset of the stale field is irrelevant - DESIGN\'s original assumption was corrected). Model run against the real backend with level and filter changes interleaved with logging from several threads; monitor on the implementation: exhaustive level x logger level x sink level cross product (11x10x10) plus random multi-sink/filter cases. Not covered by a theorem here: the per-sink override pattern (formatting is C12\'s subject) and the static-level macros (the driver uses the dynamic-level entry point with every level). The override-pattern clause (each sink is handed the line of its own override pattern if it has one, else the logger\'s, independently of the other sinks and of their order) is decided by the sink-dispatch model shared with C12 (Properties_C12d: dispatch, independence and permutation theorems, refutation of the variant that carries the line across sinks; T-src fact on _write_log_statement; differential runs through the real backend with override and plain sinks in random order).',
     design='5 C16', technique='Coq proofs (level guard, sink-loop independence, slot reset) over the backend micro-step machine + source-fact translator + deterministic-driver differential correspondence')
 
 LEVELS = list(range(0, 9))
@@ -118,5 +118,22 @@ RULE = ('exhaustive cross product statement level (9) x logger level (10) x sink
         'plus random cases: 1-3 threads, 1-2 loggers, 1-3 sinks, set_log_level / set_log_level_filter / add_filter interleaved with logging and polls; '
         'non-trivial = at least one statement filtered by the logger level and one written; distinct by case text')
 
-run = run_be(PID, 'Properties_C16', gen, monitor, nontrivial, RULE, n_quick=300, n_thorough=20000, corpus_cases=cross)
-replay = replay_be(PID, monitor)
+def dispatch_phase(ck, tier, broken):
+    """the clause "each sink receives the line formatted with its own override pattern if it has one, else the
+    logger's ... independently of the logger's other sinks": theorems Properties_C12d (sink dispatch model), their
+    T-src tie and the patd correspondence through the real backend (shared with C12)"""
+    import props.c12 as C12
+    return {'sink_dispatch': C12.dispatch_phase(ck, tier, broken)}
+
+
+run = run_be(PID, 'Properties_C16', gen, monitor, nontrivial, RULE, n_quick=300, n_thorough=20000, corpus_cases=cross, extra_phase=dispatch_phase)
+_replay_be = replay_be(PID, monitor)
+
+
+def replay(path):
+    import json
+    c = json.load(open(path)).get('case')
+    if isinstance(c, str) and c.startswith('patd '):
+        import props.c12 as C12
+        return C12.replay(path)
+    return _replay_be(path)
